@@ -535,3 +535,93 @@ def run(ctx) -> None:
     r4_r5_r7_load(ctx)
     r6_entry_points(ctx, nf)
     ctx.stats["nf call sites resolved/unresolved"] = [nf.resolved_calls, nf.unresolved_calls]
+
+
+# ---------------------------------------------------------------------------------------
+SO = "hugr-py/src/hugr/_serialization/ops.py"
+ST = "hugr-py/src/hugr/_serialization/tys.py"
+B = "hugr-py/src/hugr/hugr/base.py"
+OPS = "hugr-py/src/hugr/ops.py"
+TYS = "hugr-py/src/hugr/tys.py"
+VAL = "hugr-py/src/hugr/val.py"
+
+
+def generated_mutants(ctx, rule="C02.R1"):
+    """drop each keyword argument of each decoder's constructor call (one mutant per keyword)"""
+    out = []
+    for mn, file in (("hugr._serialization.ops", SO), ("hugr._serialization.tys", ST)):
+        for c in ctx.program.module(mn).classes.values():
+            m = c.methods.get("deserialize")
+            if m is None:
+                continue
+            for call in calls_in(m):
+                tgt = call_name(call)
+                for k in call.keywords:
+                    if k.arg and u(call.func).split(".")[0] in ("ops", "tys", "val") and k.arg != "num_out":
+                        out.append(dict(name=f"drop-{c.name}.{k.arg}", file=file, expect=[rule, "C05.R1"],
+                                        transform=("drop_kw", c.name, "deserialize", k.arg)))
+    # classes whose dropped parameter is required make the mutant non-compiling at run time only; still parses
+    return out
+
+
+HAND_MUTANTS = [
+    dict(name="swap-FunctionType-io", file=ST, expect=["C02.R1", "C05.R1"], transform=("swap_kw", "FunctionType", "deserialize", "input", "output")),
+    dict(name="swap-TailLoop-rows", file=SO, expect=["C02.R1", "C05.R1"], transform=("swap_kw", "TailLoop", "deserialize", "just_inputs", "_just_outputs")),
+    dict(name="Tag-constant-tag", file=SO, expect=["C02.R1", "C05.R1"], old="            tag=self.tag,\n            sum_ty=tys.Sum(", new="            tag=0,\n            sum_ty=tys.Sum("),
+    dict(name="encoder-drops-type_args", file=OPS, expect=["C02.R1", "C05.R1"],
+         old="            func_sig=self.signature._to_serial(),\n            type_args=ser_it(self.type_args),\n            instantiation=self.instantiation._to_serial(),\n        )\n\n    @property",
+         new="            func_sig=self.signature._to_serial(),\n            type_args=[],\n            instantiation=self.instantiation._to_serial(),\n        )\n\n    @property"),
+    dict(name="Conditional-rows-reversed", file=SO, expect=["C02.R1", "C05.R1"],
+         old="            tys.Sum([deser_it(r) for r in self.sum_rows]),\n            deser_it(self.other_inputs),",
+         new="            tys.Sum([deser_it(r) for r in reversed(self.sum_rows)]),\n            deser_it(self.other_inputs),"),
+    dict(name="Opaque-args-dropped-in-encoder", file=TYS, expect=["C02.R1", "C05.R1"],
+         old="            args=[arg._to_serial_root() for arg in self.args],", new="            args=[],"),
+    dict(name="Variable-bound-constant", file=ST, expect=["C02.R1", "C05.R1"],
+         old="        return tys.Variable(idx=self.i, bound=self.b)", new="        return tys.Variable(idx=self.i, bound=TypeBound.Any)"),
+    dict(name="SumValue-vals-sliced", file=SO, expect=["C02.R1", "C05.R1"],
+         old="            self.tag, self.typ.deserialize(), deser_it(v.root for v in self.vs)\n",
+         new="            self.tag, self.typ.deserialize(), deser_it(v.root for v in self.vs[:1])\n"),
+    dict(name="metadata-generator-again", file=B, expect=["C02.R2", "C02.R3", "C03.R7", "C03.R2"],
+         old="        order = self._hierarchy_order()\n", new="        order = iter(self._hierarchy_order())\n"),
+    dict(name="raw-parent-index", file=B, expect=["C02.R3", "C03.R2"],
+         old="            parent = rekey[data.parent] if data.parent is not None else rekey[node]",
+         new="            parent = data.parent if data.parent is not None else rekey[node]"),
+    dict(name="raw-edge-source", file=B, expect=["C02.R3", "C03.R2"],
+         old="            return (rekey[src.port.node].idx, s), (rekey[dst.port.node].idx, d)",
+         new="            return (src.port.node.idx, s), (rekey[dst.port.node].idx, d)"),
+    dict(name="metadata-misaligned", file=B, expect=["C02.R3", "C03.R2"],
+         old="            metadata=[self[node].metadata or None for node in order],",
+         new="            metadata=[self[node].metadata or None for node in self],"),
+    dict(name="skip-null-offsets-again", file=B, expect="C02.R4",
+         old="            src = Node(src_node, _metadata=get_meta(src_node))\n",
+         new="            if src_offset is None or dst_offset is None:\n                continue\n            src = Node(src_node, _metadata=get_meta(src_node))\n"),
+    dict(name="no-offset-inverse", file=B, expect="C02.R5",
+         old="                src.out(hugr._deserialize_offset(src, src_offset, Direction.OUTGOING)),",
+         new="                src.out(src_offset or 0),"),
+    dict(name="offset-not-encoded", file=B, expect=["C02.R5", "C03.R5"],
+         old="            s, d = self._constrain_offset(src.port), self._constrain_offset(dst.port)",
+         new="            s, d = self._constrain_offset(src.port), dst.port.offset"),
+    dict(name="root-metadata-off-by-one", file=B, expect="C02.R7",
+         old="                return serial.metadata[idx] or {}", new="                return serial.metadata[idx - 1] or {}"),
+    dict(name="parent-from-position", file=B, expect="C02.R7",
+         old="            parent: Node | None = Node(serial_node.root.parent)", new="            parent: Node | None = Node(max(idx - 1, 0))"),
+    dict(name="load-ignores-metadata", file=B, expect="C02.R7",
+         old="                serial_node.root.deserialize(), parent, metadata=node_meta\n", new="                serial_node.root.deserialize(), parent\n"),
+    dict(name="to_json-bypasses-serial", file=B, expect=["C02.R6", "C03.R1"],
+         old="        return self._to_serial().to_json()", new="        return json.dumps(self._to_serial().model_dump())"),
+]
+TWINS = [
+    dict(name="twin-positional-ctor", file=SO, old="        return ops.AliasDecl(self.name, self.bound)", new="        return ops.AliasDecl(alias=self.name, bound=self.bound)"),
+    dict(name="twin-local-temp", file=SO, old="        return ops.LoadConst(self.datatype.deserialize())", new="        ty = self.datatype.deserialize()\n        return ops.LoadConst(ty)"),
+    dict(name="twin-comprehension-for-deser_it", file=SO, old="        return ops.Output(deser_it(self.types))", new="        return ops.Output([t.deserialize() for t in self.types])"),
+    dict(name="twin-list-plus", file=OPS, old="        return [*self.sum_ty.variant_rows[n], *self.other_inputs]", new="        return list(self.sum_ty.variant_rows[n]) + self.other_inputs"),
+    dict(name="twin-ser_it-spelled-out", file=OPS, old="        return sops.Input(parent=parent.idx, types=ser_it(self.types))",
+         new="        return sops.Input(parent=parent.idx, types=[t._to_serial_root() for t in self.types])"),
+    dict(name="twin-map-to-comprehension", file=OPS, old="            sum_rows=list(map(ser_it, self.sum_ty.variant_rows)),",
+         new="            sum_rows=[ser_it(row) for row in self.sum_ty.variant_rows],"),
+]
+
+
+def thorough(ctx):
+    from ..selftest import run_battery
+    return run_battery(ctx, generated_mutants(ctx) + HAND_MUTANTS, TWINS)
